@@ -222,6 +222,60 @@ fn guards(c: &Case) -> CaseResult {
     let r = vpcore::catch(|| <DualMSM<Bls12> as Guard<F, KZGCommitmentScheme<Bls12>>>::batch_verify(have.iter().map(|(_, g)| g.clone()), params.iter()))
         .map_err(|p| Failure::new("Guard::batch_verify:panic", p))?;
     ensure!(r.is_ok() == expect, format!("Guard::batch_verify:{}", if expect { "rejects-all-valid" } else { "accepts-invalid" }), "members {:?}: {:?} vs {:?}", c.members, r, each);
+    // guards combined by hand through the public scale / add_msm interface, in the orders callers use:
+    // powers first (g0 + r g1 + r^2 g2 ...), Horner ((g0 r + g1) r + g2 ...), every member scaled
+    if n >= 1 {
+        use ff::Field;
+        let r = {
+            let mut rng = vpcore::SplitMix(vpcore::digest(&format!("{:?}", c.members)));
+            F::from(rng.next_u64()) * F::from(rng.next_u64()) + F::from(rng.next_u64() | 1)
+        };
+        let combos: [(&str, Box<dyn Fn() -> DualMSM<Bls12>>); 3] = [
+            (
+                "powers-first",
+                Box::new(|| {
+                    let mut acc = have[0].1.clone();
+                    let mut ri = r;
+                    for (_, g) in &have[1..] {
+                        let mut g = g.clone();
+                        g.scale(ri);
+                        acc.add_msm(g);
+                        ri *= r;
+                    }
+                    acc
+                }),
+            ),
+            (
+                "horner",
+                Box::new(|| {
+                    let mut acc = have[0].1.clone();
+                    for (_, g) in &have[1..] {
+                        acc.scale(r);
+                        acc.add_msm(g.clone());
+                    }
+                    acc
+                }),
+            ),
+            (
+                "all-scaled",
+                Box::new(|| {
+                    let mut acc = DualMSM::<Bls12>::init();
+                    let mut ri = r;
+                    for (_, g) in &have {
+                        let mut g = g.clone();
+                        g.scale(ri);
+                        acc.add_msm(g);
+                        ri *= r.square() + F::ONE;
+                    }
+                    acc
+                }),
+            ),
+        ];
+        for (name, build) in combos.iter() {
+            let got = vpcore::catch(|| build().check(&vp)).map_err(|p| Failure::new(format!("DualMSM:combined:{name}:panic"), p))?;
+            ensure!(got == expect, format!("DualMSM:combined:{name}:{}", if expect { "rejects-all-valid" } else { "accepts-invalid" }), "members {:?}: guards combined {name} with a random challenge check = {got}, individually {:?}", c.members, each);
+        }
+    }
     // unequal lengths: a Result, not a crash
     if n >= 1 {
         let r = vpcore::catch(|| <DualMSM<Bls12> as Guard<F, KZGCommitmentScheme<Bls12>>>::batch_verify(have.iter().map(|(_, g)| g.clone()), params[1..].iter()));
